@@ -17,6 +17,9 @@ struct Args {
 };
 
 PassCfg api_cfg(PassMode mode, int who, bool track);
+extern std::string g_outdir;
+std::string write_replay(const char *prop, const std::string &cls, const std::string &key, uint64_t seed, uint64_t run,
+                         const Plan &plan, const Schedule &sched, const std::string &extra);
 
 int c12_batch(const Args &a);
 int c12_replay(const std::string &path);
